@@ -83,6 +83,21 @@ class C14(WigBedProp):
             if big:
                 tags.add("spills_bufwriter")
             out.append(CaseT(f"o{k}", "bedops" if bed else "wigops", [], lines, self.common_tags(o, names, data, tags)))
+        # many chromosomes: a chromosome tree (and, with them, index levels) LARGER than the 8 KiB BufWriter in front of the destination —
+        # a small write inside the tree is then the call that has to flush the full buffer, and a fault lands on THAT write
+        for g, kind in enumerate(("wig", "bed") if tier == "thorough" else ("wig",)):
+            nch = 700 + 37 * g
+            names = [f"c{i:03d}" for i in range(nch)]
+            sizes = {n: 1000 + i for i, n in enumerate(names)}
+            o = {"compress": 0, "ips": 1024, "bs": 256, "zooms": "none", "pass": 1 + g, "inmem": 1, "rt": "mt", "threads": 2, "chan": 100,
+                 "src": "iter", "sort": "all"}
+            if kind == "wig":
+                data = {n: [(5, 9, bbgen.f32bits(float(1 + i % 5)))] for i, n in enumerate(names)}
+                lines = [bbgen.opt_line(o)] + bbgen.wig_lines(names, sizes, data)
+            else:
+                data = {n: [(5, 9, "e")] for n in names}
+                lines = [bbgen.opt_line(o)] + bbgen.bed_lines(names, sizes, data)
+            out.append(CaseT(f"manychroms{g}", "bedops" if kind == "bed" else "wigops", [], lines, {kind, "chromosome_tree_exceeds_bufwriter", "multi_chrom"}))
         # a LATER chromosome that has already staged several buffers aside and is STILL being written when the file is handed
         # to it (per-chromosome-parallel source, temp-file staging): the replay of the staged bytes happens inside the
         # producer's next write, and a fault can land on that replay
